@@ -1,0 +1,52 @@
+//go:build verif
+
+package nt
+
+// Contracts for the deductive checker in /verif (comment-only; compiled only under the verif tag).
+//
+// Big integers (num.Int, num.Nat, num.NatPlus, num.Uint, numct.Nat, big.Int) are bound to mathematical
+// integers ("bigint"): the arithmetic of the wrappers is an assumed dependency (saferith / math/big).
+// jac(a, b) is the Jacobi symbol, axiomatised by the standard laws for odd positive b (theory "jacobi",
+// trusted number theory): range, periodicity, value at 0, the supplementary law for 2 in the form used by
+// the binary algorithm, and quadratic reciprocity.
+
+//@ ghost func jac(a Int, b Int) Int
+//@ ghost func twopow(k Int) Int
+//@ pure func tabv(b Int) Int = ite(b % 8 == 1 || b % 8 == 7, 1, -1)
+//@ theory twopow
+//@ axiom TwoPow0: twopow(0) == 1
+//@ axiom TwoPowS: forall k Int :: k >= 0 ==> twopow(k + 1) == 2 * twopow(k)
+//@ axiom TwoPowPos: forall k Int :: k >= 0 ==> twopow(k) > 0
+//@ axiom TwoPowDivStep: forall a, i Int :: i >= 0 && a % twopow(i) == 0 && (a / twopow(i)) % 2 == 0 ==> a % twopow(i + 1) == 0
+//@ axiom TwoPowOddQuot: forall a, i Int :: i >= 0 && a > 0 && a % twopow(i) == 0 ==> a / twopow(i) > 0
+//@ end
+//@ theory modfacts
+//@ axiom ModSmall: forall x, t Int :: 0 <= x && x < t ==> x % t == x
+//@ end
+//@ theory jacobi
+//@ axiom JRange: forall a, b Int :: b > 0 && b % 2 == 1 ==> (jac(a, b) == 1 || jac(a, b) == 0 || jac(a, b) == -1)
+//@ axiom JPeriodic: forall a, b Int :: b > 0 && b % 2 == 1 ==> jac(a % b, b) == jac(a, b)
+//@ axiom JZero: forall b Int :: b > 0 && b % 2 == 1 ==> jac(0, b) == ite(b == 1, 1, 0)
+//@ axiom JTwoPow: forall a, b, i Int :: b > 0 && b % 2 == 1 && i >= 0 && a % twopow(i) == 0 ==> jac(a, b) == ite(i % 2 == 0, 1, tabv(b)) * jac(a / twopow(i), b)
+//@ axiom JRecip: forall a, b Int :: a > 0 && a % 2 == 1 && b > 0 && b % 2 == 1 ==> jac(a, b) == ite(a % 4 == 3 && b % 4 == 3, -1, 1) * jac(b, a)
+//@ end
+
+//@ func Jacobi
+//@   property C17
+//@   bind Int bigint, Nat bigint, NatPlus bigint, Uint bigint, PositiveNaturalNumbers bigintS
+//@   uses jacobi twopow
+//@   nopanic
+//@   ensures y % 2 == 0 ==> err != nil
+//@   ensures y % 2 == 1 ==> err == nil && result == jac(x % y, y)
+//@   loop for(true)
+//@     invariant b > 0 && b % 2 == 1 && a >= 0 && (ret == 1 || ret == -1)
+//@     invariant ret * jac(a, b) == jac(x % y, y)
+//@     invariant len(jacobiTab) == 8 && jacobiTab[1] == 1 && jacobiTab[3] == -1 && jacobiTab[5] == -1 && jacobiTab[7] == 1
+//@   loop for(a.Value().Big().Bit(i) == 0)
+//@     invariant i >= 0 && a % twopow(i) == 0 && a > 0
+//@   assert before "a = a.Rsh(uint(i))": a / twopow(i) > 0 && (a / twopow(i)) % 2 == 1
+//@   assert before "a = a.Rsh(uint(i))": jac(a, b) == ite(i % 2 == 0, 1, tabv(b)) * jac(a / twopow(i), b)
+//@   assert after "a = a.Rsh(uint(i))": a > 0 && a % 2 == 1 && ret * ite(i % 2 == 0, 1, tabv(b)) * jac(a, b) == jac(x % y, y)
+//@   assert after "if (i & 1) != 0 {": ret * jac(a, b) == jac(x % y, y) && (ret == 1 || ret == -1)
+//@   assert before "if (a.Byte(0) & b.Byte(0) & 0b10) != 0 {": jac(a, b) == ite(a % 4 == 3 && b % 4 == 3, -1, 1) * jac(b, a)
+//@   assert after "if (a.Byte(0) & b.Byte(0) & 0b10) != 0 {": ret * jac(b, a) == jac(x % y, y) && (ret == 1 || ret == -1)
